@@ -662,6 +662,29 @@ func TestVerifC08(t *testing.T) {
 		}
 	}
 	c.Set("three_byte_strings_complete", full3)
+	if c.Thorough() { // length 4 and 5: any first byte, the structural alphabet on the others
+		for _, wrap := range []bool{false, true} {
+			fam := "byte strings of length 4-5 over the structural alphabet (message)"
+			mk := func(b []byte) []byte { return b }
+			if wrap {
+				fam = "byte strings of length 4-5 over the structural alphabet (Details content)"
+				mk = c08Wrap
+			}
+			if !par(256*len(alpha), func(i int) {
+				b0, b1 := byte(i/len(alpha)), alpha[i%len(alpha)]
+				for _, b2 := range alpha {
+					for _, b3 := range alpha {
+						c08CheckBytes(c, st, fam, mk([]byte{b0, b1, b2, b3}))
+						for _, b4 := range alpha[:8] {
+							c08CheckBytes(c, st, fam, mk([]byte{b0, b1, b2, b3, b4}))
+						}
+					}
+				}
+			}) {
+				c.Capped("time budget in " + fam)
+			}
+		}
+	}
 
 	// F3: every (field number, wire type) single-field message with value forms, at both levels; pairs and triples
 	elems := c08Elements(c.Thorough())
